@@ -82,7 +82,13 @@ func startWorker() *worker {
 func runIsolated(texts []string) []isoResult {
 	out := make([]isoResult, len(texts))
 	var w *worker
+	aborted := 0
 	for i, t := range texts {
+		if aborted >= 6 {
+			// enough violations: the rest is not run (see runDecIsolated)
+			out[i] = isoResult{class: "normal", show: "SKIPPED"}
+			continue
+		}
 		if w == nil {
 			w = startWorker()
 		}
@@ -104,6 +110,7 @@ func runIsolated(texts []string) []isoResult {
 				w.cmd.Wait()
 				w = nil
 				out[i] = isoResult{class: "process died (fatal error, e.g. out of memory)", show: "DIED"}
+				aborted++
 				continue
 			}
 			f := strings.Split(strings.TrimRight(r.line, "\n"), "\t")
@@ -127,6 +134,7 @@ func runIsolated(texts []string) []isoResult {
 			w.cmd.Wait()
 			w = nil
 			out[i] = isoResult{class: "no result within 20 s (hang)", show: "TIMEOUT"}
+			aborted++
 		}
 	}
 	if w != nil {
